@@ -13,7 +13,30 @@
  "functions": ["e2fsck/util.c:get_backup_sb"],
  "assumes": ["why not U/iter: CBMC 6.11 loop contracts need a contract on BOTH nested loops, and goto-instrument then aborts on this function (dfcc_instrument_loop.cpp:625 'Exiting instructions must be GOTOs'); a contract on the inner loop alone is instrumented but its frame check fails against the uncontracted outer loop. No hook is needed for this unit",
              "call sites (e2fsck/unix.c, e2fsck/message.c): ctx is non-NULL whenever name and manager are (message.c passes NULL, NULL, NULL and only wants the 8193 default)",
-             "this unit: the filesystem handle is absent or has no superblock (the primary superblock was unusable: the usual situation), so the group size is the default 8 * blocksize; ctx->blocksize (e2fsck -B) is 0 (all seven sizes are tried) or a legal block size 1024 << n, n <= 6 (eight cases run with constants so that products and quotients fold); the known-group-size case is unit get_backup_sb_fs",
+             "this unit: the filesystem handle is absent or has no superblock (the primary superblock was unusable: the usual situation), so the group size is the default 8 * blocksize; ctx->blocksize is 0 (no -B): all seven sizes are tried, each with constants so that products and quotients fold; -B is unit get_backup_sb_B; the known-group-size case is unit get_backup_sb_fs",
+             "ext2fs_list_backups is a stub returning ARBITRARY groups (its enumeration = exactly the backup groups of the format is unit geometry/list_backups), at most two per block size; the stub checks it is called with fs == NULL (sparse_super sequence)",
+             "the device has fewer than 2^32 - 1 groups of the size tried (otherwise the 32-bit 'limit' can be 0xffffffff and the real loop does not terminate once ext2fs_list_backups is exhausted: observation, not pursued)",
+             "the candidate blocks carry s_log_block_size <= 15: EXT2_BLOCK_SIZE(sb) = (1 << 10) << s_log_block_size is evaluated on the raw on-disk value BEFORE any validation, which is undefined for values >= 21 (observation unit get_backup_sb_wild_log; on x86 the shift count is taken modulo 32, so a block with magic 0xEF53 and s_log_block_size == 32 is accepted as a 1 KiB superblock)",
+             "io manager (open, set_blksize, close), io_channel_read_blk64, ext2fs_get_device_size2, ext2fs_blocks_count are stubs; the superblock read for a candidate is an arbitrary (magic, s_log_block_size) pair per probe; little-endian host"],
+ "native": false
+}
+*/
+/* VERIF-UNIT
+{
+ "name": "get_backup_sb_B",
+ "props": ["C20"],
+ "level": "B(2)",
+ "tier": "quick",
+ "harness": "h_get_backup_sb_B",
+ "includes": ["e2fsck", "lib/support"],
+ "unwind": 9,
+ "unwindset": {"get_backup_sb.0": 4},
+ "cbmc_flags": ["--object-bits", "12"],
+ "unwind_reason": "outer loop: the block size doubles from >= 1024 while <= 65536 (EXT2_MAX_BLOCK_SIZE): at most 7 iterations, complete (unwinding assertions on). Inner group loop: BOUNDED STAND-IN, the ext2fs_list_backups stub hands out at most 2 arbitrary candidate groups per block size and then reports the end of the sequence, so the loop runs at most 3 times; the loop body keeps no state between candidates (it either accepts and leaves or continues), so the per-probe statement does not depend on the number of earlier probes, but this is an argument, not a proof: level B(2)",
+ "functions": ["e2fsck/util.c:get_backup_sb"],
+ "assumes": ["why not U/iter: CBMC 6.11 loop contracts need a contract on BOTH nested loops, and goto-instrument then aborts on this function (dfcc_instrument_loop.cpp:625 'Exiting instructions must be GOTOs'); a contract on the inner loop alone is instrumented but its frame check fails against the uncontracted outer loop. No hook is needed for this unit",
+             "call sites (e2fsck/unix.c, e2fsck/message.c): ctx is non-NULL whenever name and manager are (message.c passes NULL, NULL, NULL and only wants the 8193 default)",
+             "this unit: the filesystem handle is absent or has no superblock (the primary superblock was unusable: the usual situation), so the group size is the default 8 * blocksize; ctx->blocksize (e2fsck -B) is a legal block size 1024 << n, n <= 6 (seven cases run with constants so that products and quotients fold); only that size is tried; the known-group-size case is unit get_backup_sb_fs",
              "ext2fs_list_backups is a stub returning ARBITRARY groups (its enumeration = exactly the backup groups of the format is unit geometry/list_backups), at most two per block size; the stub checks it is called with fs == NULL (sparse_super sequence)",
              "the device has fewer than 2^32 - 1 groups of the size tried (otherwise the 32-bit 'limit' can be 0xffffffff and the real loop does not terminate once ext2fs_list_backups is exhausted: observation, not pursued)",
              "the candidate blocks carry s_log_block_size <= 15: EXT2_BLOCK_SIZE(sb) = (1 << 10) << s_log_block_size is evaluated on the raw on-disk value BEFORE any validation, which is undefined for values >= 21 (observation unit get_backup_sb_wild_log; on x86 the shift count is taken modulo 32, so a block with magic 0xEF53 and s_log_block_size == 32 is accepted as a 1 KiB superblock)",
@@ -212,19 +235,21 @@ static void run(int with_fs_super, unsigned int ctx_bs, unsigned int log_mask)
 		CHECK(CTX.superblock == r && CTX.blocksize == G.bs, "the accepted location and block size are recorded in the context");
 		CHECK(G.bs >= 1024 && G.bs <= 65536, "accepted with a legal block size");
 		if (G.bs == 1024) REACH("accepted_1k");
-#ifndef VERIF_UNIT_get_backup_sb_fs
+#if defined(VERIF_UNIT_get_backup_sb_default) || defined(VERIF_UNIT_get_backup_sb_wild_log)
 		if (G.bs == 4096 && G.slot == 3) REACH("accepted_4k_after_two_sizes");
+#elif defined(VERIF_UNIT_get_backup_sb_B)
+		if (G.bs == 4096 && G.slot == 1) REACH("accepted_4k_given");
 #else
 		if (IN.fs_bpg != 8 * G.bs) REACH("accepted_nondefault_group_size");
 #endif
 	} else {
 		if (IN.have_ctx && !(G.reads > 0 && G.last_blk == 8193 && G.last_ok))
 			CHECK(CTX.superblock == G.sb0 && CTX.blocksize == G.bs0, "fallback answer: the context is unchanged");
-		if (G.opens && !(ctx_bs || with_fs_super) && !(G.reads > 0 && G.last_blk == 8193 && G.last_ok))
+		if (G.slot > 0 && !(ctx_bs || with_fs_super) && !(G.reads > 0 && G.last_blk == 8193 && G.last_ok))
 			CHECK(G.slot == 7 && G.bs == 65536, "nothing accepted and block size unknown: all seven block sizes were tried");
 	}
 	if (r == 8193 && G.reads > 0) REACH("fallback_after_probing");
-#ifndef VERIF_UNIT_get_backup_sb_fs
+#if defined(VERIF_UNIT_get_backup_sb_default) || defined(VERIF_UNIT_get_backup_sb_wild_log)
 	if (G.slot == 7) REACH("all_seven_block_sizes");
 #endif
 	REACH("end");
@@ -234,9 +259,16 @@ void h_get_backup_sb_default(void)
 {
 	LOAD_IN();
 	ASSUME(IN.fs_log_bs <= 6 && IN.ctx_log_bs_plus1 <= 7);
-	/* eight cases with a constant ctx->blocksize */
+	ASSUME(IN.ctx_log_bs_plus1 == 0);
+	run(0, 0, 0xf);
+}
+
+void h_get_backup_sb_B(void)
+{
+	LOAD_IN();
+	ASSUME(IN.fs_log_bs <= 6 && IN.ctx_log_bs_plus1 >= 1 && IN.ctx_log_bs_plus1 <= 7);
+	/* seven cases with a constant ctx->blocksize */
 	switch (IN.ctx_log_bs_plus1) {
-	case 0: run(0, 0, 0xf); break;
 	case 1: run(0, 1024, 0xf); break;
 	case 2: run(0, 2048, 0xf); break;
 	case 3: run(0, 4096, 0xf); break;
